@@ -20,15 +20,7 @@ LEVEL = 'proof'
 CN = H.CN
 EPS = H.EPS
 
-LOCAL_KNOWN = {
-    'C09:periodic-nonuniform-integrals':
-        'periodic space on non-uniform breakpoints: BSplines.integrals[n+i] is mirrored from integrals[d-i-1] (right only for '
-        'symmetric knots), so the quadrature weights do not integrate the interpolant and do not sum to the domain length '
-        '(patch: notes/patch_C09_periodic-nonuniform-integrals.diff)',
-    'C09:cubic-uniform-few-cells':
-        'clamped uniform-cubic space with 1 or 2 cells: the boundary integrals assigned from both ends overwrite each other '
-        '(weights sum to 2L for 1 cell, 49/48 L for 2 cells) (patch: notes/patch_C09_cubic-uniform-few-cells.diff)',
-}
+LOCAL_KNOWN = {}   # every finding of the build phase has been decided in KNOWN_FINDINGS.json (fixed or known)
 
 
 def is_uniform(sp):
